@@ -67,6 +67,8 @@ Definition prim_pre2 (p : prim) (s : tstate) : Prop :=
   | PMaxSize => trk_size s = true \/ tot_pre n s
   | _ => prim_pre n p s
   end.
+Lemma prim_pre_pre2 p s : prim_pre n p s -> prim_pre2 p s.
+Proof. destruct p; cbn [prim_pre2 prim_pre prim_preN]; auto. Qed.
 Theorem step_preserves_InvC2 p s : InvC n s -> prim_pre2 p s -> InvC n (step n p s).
 Proof.
   intros HI Hp. destruct p; try (apply step_preserves_InvC; assumption); cbn [step prim_pre2] in *.
@@ -85,6 +87,11 @@ Proof.
   - apply rm_pre2_sound; assumption.
   - apply rs_pre2_sound; assumption.
 Qed.
+
+Theorem run_preserves_InvC2 tr : forall s, InvC n s -> pre_trace n prim_pre2 tr s -> InvC n (run n tr s).
+Proof. intros s HI Hp. apply (run_good n (InvC n) prim_pre2 step_preserves_InvC2 tr s HI Hp). Qed.
+Theorem trace_from_fresh_InvC2 tr : pre_trace n prim_pre2 tr (init_state n) -> InvC n (run n tr (init_state n)).
+Proof. apply run_preserves_InvC2, (init_state_InvC n HN). Qed.
 
 (* C04: the checked-trace theorem over the FULL alphabet, structural facts derived *)
 Fixpoint pre2c_trace_b (tr : list prim) (s : tstate) : bool :=
